@@ -5,4 +5,5 @@ CONSTANTS
  Dev = "swapResidResname"
  FixedOrder = TRUE
 INVARIANT RoundTripI
+INVARIANT FastAgrees
 CHECK_DEADLOCK FALSE
